@@ -301,7 +301,7 @@ def euler_rotation_angles(matrix: Tensor, order: Optional[str] = None) -> Tensor
             "euler_rotation_angles() 'matrix' must be rotation matrix, i.e., matrix.det().abs() = 1"
         )
     if D == 2:
-        angles = torch.acos(matrix[..., 0, 0])
+        angles = torch.atan2(matrix[..., 1, 0], matrix[..., 0, 0]).unsqueeze(-1)
     else:
         # https://en.wikipedia.org/wiki/Euler_angles#Rotation_matrix
         angles = matrix.new_empty(matrix.shape[:-2] + (D,))
